@@ -271,6 +271,38 @@ def _chunk_events(args):
 
 
 
+def _xlift_events(args):
+    """the interval-level liftover between WHOLE-chromosome parents that carry sequence: onto an equal chromosome it is the
+    identity on chromosome coordinates, onto a chromosome of another name or with other residues it is refused"""
+    locs, G, seed = args
+    setup_repo_import()
+    from inscripta.biocantor.gene.feature import FeatureInterval
+    from inscripta.biocantor.io.parser import seq_to_parent
+    from inscripta.biocantor.location.strand import Strand
+
+    rnd = random.Random(seed)
+    ev = []
+    for (blocks, st) in locs:
+        if st not in "+-" or any(b[1] <= b[0] for b in blocks):
+            continue
+        root = "".join(rnd.choice("ACGT") for _ in range(G))
+        other = "".join({"A": "C", "C": "G", "G": "T", "T": "A"}[c] if rnd.random() < 0.5 else c for c in root)
+        if other == root:
+            other = ("C" if root[0] != "C" else "G") + root[1:]
+        try:
+            f = FeatureInterval([b[0] for b in blocks], [b[1] for b in blocks], Strand.from_symbol(st),
+                                parent_or_seq_chunk_parent=seq_to_parent(root, seq_id="chrX"))
+        except Exception:
+            continue
+        for rel, target in (("same", lambda: seq_to_parent(root, seq_id="chrX")),
+                            ("other-residues", lambda: seq_to_parent(other, seq_id="chrX")),
+                            ("other-id", lambda: seq_to_parent(root, seq_id="chrY"))):
+            o = E.outcome(lambda: f.liftover_to_parent_or_seq_chunk_parent(target()),
+                          lambda r: (E.loc(r.chromosome_location), str(r.get_spliced_sequence())))
+            ev.append(["xlift", [blocks, st], rel, o, str(f.get_spliced_sequence())])
+    return ev
+
+
 def _nested_chunk_events(args):
     """A location that lives one or two coordinate systems BELOW a sequence chunk (child -> region [-> sub-region] ->
     chunk A -> chromosome) is moved with the public static liftover_location_to_seq_chunk_parent onto another chunk B
@@ -361,6 +393,9 @@ def run(chk):
     if quick:
         locs = E.enum_locs(5, 3) + rnd.sample(locs, 1000)
     parts = pmap(_chunk_events, [(locs[i::64], G if not quick else 8, chk.seed * 409 + i) for i in range(64)])
+    evs += [e for p in parts for e in p]
+    xl = rnd.sample(locs, min(len(locs), 400 if quick else 6000))
+    parts = pmap(_xlift_events, [(xl[i::16], G if not quick else 8, chk.seed * 431 + i) for i in range(16)])
     evs += [e for p in parts for e in p]
     parts = pmap(_nested_chunk_events, [(chk.seed * 419 + i, 60 if quick else 1500, rnd.choice([12, 16, 20])) for i in range(32)])
     evs += [e for p in parts for e in p]
